@@ -39,3 +39,22 @@ def node(focus, budget_q=60, budget_t=1500, variants=None, extra_assume=None, re
 PROPS = {
     "C05": node("C05", required=["send_ok", "retention_checked"]),
 }
+
+DST = "deterministic simulation with fault injection: seeded search over scripts, schedules and fault sequences"
+NODE_NOTE = ("trusted: Go 1.26.8 runtime + testing/synctest fake clock, the harness's scripted peers and oracles, badger on tmpfs; "
+             "not covered: real sockets, disk faults below the file API, backward clock jumps; sampling only")
+
+MANIFEST_TEXT = {
+    "C05": {"text": "Seeded exploration of node-level histories (submit/deliver/peer up/down/advance/restart, send failures, both serial and interleaved "
+                    "schedules at store-write hooks) against retention, direct-delivery, epidemic-spread and bounded retry-liveness oracles on the real "
+                    "Core+store+cron+CLA manager, all six algorithms. Evidence for the sampled runs, not proof.",
+            "design_ref": "DESIGN.md §4 C05, App. A.1/A.2/A.9", "note": NODE_NOTE, "technique": DST},
+}
+
+NOT_APPLICABLE = [
+    {"property_id": "C01", "reason": "pure function of its input (serialise/parse round trip): no schedule, clock, fault or interleaving for a simulator to own; input generation alone would be property-based testing, not simulation (DESIGN.md §4 C01)"},
+    {"property_id": "C02", "reason": "acceptance is a pure function of (bytes, now); the node-generated half is asserted as a standing invariant inside the C06/C15 checks but not claimed here (DESIGN.md §4 C02)"},
+    {"property_id": "C09", "reason": "Bundle.Fragment/ReassembleFragments are pure and the node never calls Fragment: no link, path, schedule or fault the property could depend on (DESIGN.md §4 C09)"},
+    {"property_id": "C10", "reason": "reassembly is a pure function of the fragment collection; its only stateful consumer (the store) is decided under C08 (DESIGN.md §4 C10)"},
+    {"property_id": "C17", "reason": "per-message encode/decode round trips and URI grammar are pure functions; stream alignment is exercised, not decided, by the C11/C12 simulations (DESIGN.md §4 C17)"},
+]
